@@ -4,6 +4,7 @@ import (
 	"go/ast"
 	"go/token"
 	"go/types"
+	"sort"
 	"strings"
 
 	"pdfverif/internal/core"
@@ -19,7 +20,7 @@ func init() {
 	})
 	register(&Property{
 		ID:       "C14",
-		Patterns: []string{"./font/encoding/simpleenc", "./font/cmap", "./font/encoding", "./graphics/extract"},
+		Patterns: []string{"./font/encoding/simpleenc", "./font/cmap", "./font/encoding", "./graphics/extract", "./font/dict", "./graphics/content/builder"},
 		Run:      runC14,
 		Explanation: "Narrow static rules on glyph-code allocation and ToUnicode compression: (R3) in simpleenc.Encode a code is chosen only among codes that are not in use — every assignment of the chosen code inside the search loop is dominated by the miss edge of the in-use lookup of that code — the (glyph, text) pair is rejected if it already has a code, the table-full exit precedes the search, and the chosen code is what both tables record; so distinct (glyph, text) pairs can never share a code; " +
 			"(R7) ToUnicode range compression compares every adjacent pair in full (shared with C13). Decides these structural conditions for all strings and orders of use; everything value-level (widths, ToUnicode contents, the 18 font kinds end to end, sibling Codes implementations) is NOT decided.",
@@ -40,6 +41,8 @@ func runC14(c *core.Ctx) {
 	ruleRunCompression(c, "C14-R7")
 	ruleSimpleWidthsWindow(c)
 	ruleDifferencesArray(c)
+	ruleSimpleCodesSiblings(c)
+	ruleFontSelectionIdentity(c)
 }
 
 const cmapPkg = "pdf/font/cmap"
@@ -655,4 +658,101 @@ func ruleDifferencesArray(c *core.Ctx) {
 		})
 	}
 	c.Floor("C14-R9", 2)
+}
+
+// ruleSimpleCodesSiblings (C14-R1): the three reader-side decoders of simple
+// fonts (Type 1, TrueType, Type 3) are copies of one algorithm and must
+// agree: for a mapped code the CID is code+1 computed in the CID type (an
+// addition in the byte type wraps at 255), 0 for an unmapped one; widths come
+// from the dictionary's table divided by 1000 (Type 3: through the matrix).
+// The writer side (simpleenc) hands out the same CIDs; the relation
+// extracted from each sibling is compared with the others.
+func ruleSimpleCodesSiblings(c *core.Ctx) {
+	const pk = "pdf/font/dict"
+	c.Check("C14-R1", pk+".Codes/siblings", "the simple-font decoders agree on how a code becomes a CID, and compute it without 8-bit overflow", func(o *core.Ob) {
+		var rel []string
+		var names []string
+		for _, name := range []string{"(*t1Font).Codes", "(*ttFont).Codes", "(*t3Font).Codes"} {
+			fn := c.Prog.FuncOpt(pk, name)
+			if fn == nil {
+				core.Undecided("%s.%s not found", pk, name)
+			}
+			info := fn.Info()
+			var rhs []string
+			ast.Inspect(fn.Decl.Body, func(m ast.Node) bool {
+				as, ok := m.(*ast.AssignStmt)
+				if !ok || len(as.Lhs) != 1 || len(as.Rhs) != 1 {
+					return true
+				}
+				sel, ok := ast.Unparen(as.Lhs[0]).(*ast.SelectorExpr)
+				if !ok || sel.Sel.Name != "CID" {
+					return true
+				}
+				o.Count(1)
+				o.At(fn.Site(as, "CID of a code"))
+				rhs = append(rhs, c.Prog.Src(as.Rhs[0]))
+				// no arithmetic in an 8-bit type inside the value
+				ast.Inspect(as.Rhs[0], func(k ast.Node) bool {
+					if be, ok := k.(*ast.BinaryExpr); ok && (be.Op == token.ADD || be.Op == token.SUB) {
+						if b, ok := info.TypeOf(be).Underlying().(*types.Basic); ok && (b.Kind() == types.Uint8 || b.Kind() == types.Int8) {
+							if tv, isConst := info.Types[be]; !isConst || tv.Value == nil {
+								o.FailAt(fn.Site(be, ""), "%s: %s is computed in an 8-bit type: code 255 wraps to 0, the CID of .notdef", c.Prog.Pos(be.Pos()), c.Prog.Src(be))
+							}
+						}
+					}
+					return true
+				})
+				return true
+			})
+			sort.Strings(rhs)
+			rel = append(rel, strings.Join(rhs, " | "))
+			names = append(names, name)
+		}
+		for i := 1; i < len(rel); i++ {
+			if rel[i] != rel[0] {
+				o.Fail("%s computes the CID as {%s}, %s as {%s}", names[0], rel[0], names[i], rel[i])
+			}
+		}
+		o.Fact("CID relation: %s", rel[0])
+	})
+}
+
+// ruleFontSelectionIdentity (C14-R2): the content builder skips a redundant
+// Tf operator only when the very same font instance is already selected.
+// Two instances of one font program allocate codes independently, so an
+// equivalence coarser than identity makes strings encoded by one instance be
+// decoded with the other.
+func ruleFontSelectionIdentity(c *core.Ctx) {
+	const pk = "pdf/graphics/content/builder"
+	c.Check("C14-R2", pk+".(*Builder).TextSetFont/identity", "the redundant-Tf shortcut compares the selected font with the requested one by identity", func(o *core.Ob) {
+		fn := c.Prog.Func(pk, "(*Builder).TextSetFont")
+		g := fn.Graph()
+		info := fn.Info()
+		f := fn.Info().Defs[fn.Decl.Type.Params.List[0].Names[0]]
+		emits := callVerticesSuffix(g, ".emit")
+		if len(emits) == 0 {
+			core.Undecided("TextSetFont does not emit an operator")
+		}
+		n := 0
+		for _, r := range g.Returns() {
+			// returns that skip the emit
+			if g.ReachFrom(g.Entry, true, core.AvoidVs(emits[0].V))[r] == false {
+				continue
+			}
+			// which conditions lead here? those mentioning the font parameter
+			for _, a := range g.DominatingAtoms(r) {
+				if !core.Mentions(info, a.Expr, f) {
+					continue
+				}
+				n++
+				o.Count(1)
+				o.At(fn.Site(a.Expr, "font comparison"))
+				cmp, ok := a.AsCmp()
+				if !ok || cmp.Op != token.EQL || !(core.ObjOf(info, cmp.L) == f || core.ObjOf(info, cmp.R) == f) {
+					o.FailAt(fn.Site(a.Expr, ""), "%s: the shortcut is taken when %s holds; only identity (==) of the instances guarantees that both use the same code allocation", c.Prog.Pos(a.Expr.Pos()), c.Prog.Src(a.Expr))
+				}
+			}
+		}
+		o.Require(n >= 1, "no comparison of the font instance guards the shortcut")
+	})
 }
